@@ -180,6 +180,11 @@ func (bi *BasmInstance) BasmInstanceInit(bm *bondmachine.Bondmachine) {
 	}
 }
 
+// Close releases the requirements server started by BasmInstanceInit
+func (bi *BasmInstance) Close() {
+	bi.rg.Close()
+}
+
 func (bi *BasmInstance) PrintInit() {
 	fmt.Println(purple("Init: Reading Matchers"))
 	for i, line := range bi.matchers {
